@@ -27,24 +27,6 @@ import PoetryVerif.Spec.Pep440
 namespace Poetry.Spec.Pep508
 open Poetry Poetry.Marker
 
-/-- a target environment: values of the string/version variables and the set of active extras -/
-structure Env where
-  vars : List (String × String)
-  extras : List String
-deriving Repr, Inhabited
-
-def Env.get? (E : Env) (k : String) : Option String := (E.vars.find? (fun p => p.1 == k)).map (·.2)
-
-/-- PEP 503 name normalisation: lower-case, runs of `-`, `_`, `.` become one `-` -/
-def canonName (s : String) : String :=
-  let rec go (cs : List Char) (inRun : Bool) : List Char :=
-    match cs with
-    | [] => []
-    | c :: r =>
-      if c == '-' || c == '_' || c == '.' then (if inRun then go r true else '-' :: go r true)
-      else lowerChar c :: go r false
-  String.ofList (go s.toList false)
-
 def refAliases : List (String × String) :=
   [("os.name", "os_name"), ("sys.platform", "sys_platform"), ("platform.version", "platform_version"),
    ("platform.machine", "platform_machine"), ("platform.python_implementation", "platform_python_implementation"),
@@ -113,11 +95,14 @@ def evalItem (name op value : String) (swapped : Bool) (E : Env) : Option Bool :
   if key == "extra" then
     if swapped then none
     else
-      let active := E.extras.map canonName
-      match op with
-      | "==" => some (active.contains (canonName value))
-      | "!=" => some (!active.contains (canonName value))
-      | _ => none
+      match E.extras with
+      | none => none
+      | some ex =>
+        let active := ex.map canonName
+        match op with
+        | "==" => some (active.contains (canonName value))
+        | "!=" => some (!active.contains (canonName value))
+        | _ => none
   else
     match E.get? key with
     | none => none
